@@ -92,6 +92,9 @@ pub enum GOp {
     Write(u8, i64),
     SetValue(u8, i64),
     TryGetValue(u8, u8),
+    /// the requirement check `requirements().require::<_, T>()`: presence is a matter of the scope stack only - live
+    /// guards, shared or exclusive, on any instance do not make a present type "missing"
+    Require(u8),
     /// panicking accessor, under catch_unwind; the guard (if any) is dropped immediately
     Panicky(u8, u8, Panicking),
 }
@@ -136,7 +139,7 @@ impl Check for GuardCheck {
         "C02/guard-history".into()
     }
     fn classes(&self) -> &'static [&'static str] {
-        &["refused request", ">=2 guards live on one cell", "same type held in two scopes", "write through exclusive guard then read", "panicking accessor refused", "request on parent scope", "not-found request"]
+        &["refused request", ">=2 guards live on one cell", "same type held in two scopes", "write through exclusive guard then read", "panicking accessor refused", "request on parent scope", "not-found request", "requirement check while guards are live"]
     }
     fn oracle(&self, case: &GuardCase) -> Outcome {
         let mut classes = 0u64;
@@ -291,6 +294,15 @@ fn run_guards(case: &GuardCase, classes: &mut u64) -> Result<(), Failure> {
                     }
                 }
             }
+            GOp::Require(t) => {
+                let t = *t % 3;
+                let present = holder(&cells, t, top).is_some();
+                let got = with_type!(t, T => st.requirements().require::<crate::props::c03::LeafC, T>().is_ok());
+                if present && cells.iter().any(|sc| sc[t as usize].as_ref().map_or(false, |c| c.writer || c.readers > 0)) {
+                    *classes |= 128;
+                }
+                ensure_that!(got == present, "C02 requirement check depends on live guards", "{at}: require::<T{t}>() is_ok = {got}, the type is {} in the scope stack", if present { "present" } else { "absent" });
+            }
             GOp::TryGetValue(t, hops) => {
                 let t = *t % 3;
                 let hops = (*hops as usize) % cells.len();
@@ -372,6 +384,9 @@ fn guard_alphabet() -> Vec<GOp> {
             a.push(GOp::Acquire(t, hops, Acc::TryBorrowMut));
         }
         a.push(GOp::SetValue(t, 40 + t as i64));
+        if t < 2 {
+            a.push(GOp::Require(t));
+        }
         a.push(GOp::Panicky(t, 0, Panicking::BorrowMut));
         a.push(GOp::Panicky(t, 0, Panicking::GetValue));
     }
@@ -397,6 +412,7 @@ fn gop_strategy() -> impl Strategy<Value = GOp> {
         2 => (0u8..8).prop_map(GOp::Read),
         3 => (0u8..8, 0i64..100).prop_map(|(i, v)| GOp::Write(i, v)),
         2 => (0u8..3, 0i64..100).prop_map(|(t, v)| GOp::SetValue(t, v)),
+        1 => (0u8..3).prop_map(GOp::Require),
         2 => (0u8..3, 0u8..4).prop_map(|(t, h)| GOp::TryGetValue(t, h)),
         2 => (0u8..3, 0u8..4, prop_oneof![Just(Panicking::Borrow), Just(Panicking::BorrowMut), Just(Panicking::GetValue), Just(Panicking::BorrowValue), Just(Panicking::BorrowValueMut)]).prop_map(|(t, h, w)| GOp::Panicky(t, h, w)),
     ]
@@ -902,7 +918,7 @@ fn hold_exhaustive() -> Vec<Vec<c01::Op>> {
 
 pub fn run_all(ctx: &mut Ctx, replay: Option<&Path>) {
     ctx.rule("three generators: (a) guard histories — a layout of 3 types over <= 3 scopes, then acquire/release/read/write/set_value/try_get_value/panicking accessors through &State, checked against a readers/writer automaton per (type, scope) cell; non-trivial = >= 2 guards live on one cell with >= 1 refused request, or the same type held in two scopes; (b) multi-borrow — a generated tuple instantiation of try_get_multiple_mut (all 117 tuples of arity 2-4 over 3 types; structured tuples of arity 5-8 over 8 types) against a layout of the 8 types over 1-3 scopes; non-trivial = duplicate / missing / arity >= 5 / shadowed instance; (b') the same over tuples that contain zero-sized marker state types (distinct types are distinct states although their instances have no distinguishable address), exhaustive over the layouts; (c) holding — registry histories with nested State::holding (depth <= 3) with bodies that are registry sub-histories and injected failures; non-trivial = failure at nesting depth >= 1, or a failing holding of a type living in a parent scope; distinct by case");
-    ctx.assume("a holding body never inserts the held type into the scope the held instance was taken from (inserting it into any other scope is generated) and keeps the scope depth balanced");
+    ctx.assume("a holding body keeps the scope depth balanced; when it inserts the held type into the very cell the held instance was taken from, the put-back replaces that instance (what was written through the held instance is what later readers see)");
     ctx.assume("when a tuple both repeats a type and misses one, any error is accepted");
     let g = GuardCheck;
     let m = MultiCheck;
@@ -959,6 +975,9 @@ pub fn run_all(ctx: &mut Ctx, replay: Option<&Path>) {
             one.chain(two).collect::<Vec<_>>()
         }),
     );
+    // the typed accessors of State under a live exclusive guard, on deep stacks (shared with C01)
+    let acc = crate::props::c01::HelperCheck;
+    ctx.exhaustive(&acc, "typed State accessors under a live exclusive guard: layouts of 1-3 scopes", (1usize..4).flat_map(|len| (0..5usize.pow(len as u32)).map(move |code| crate::props::c01::HelperCase { layout: (0..len).map(|i| ((code / 5usize.pow(i as u32)) % 5) as u8).collect(), writer: true, extra_depth: (code % 3) as u16 })));
     let sn = SameNameCheck;
     ctx.regressions(&sn);
     ctx.exhaustive(&sn, "request order {distinct first, repeated first} x arity {2, 3}, each in a fresh thread", [false, true].into_iter().flat_map(|a| [false, true].into_iter().map(move |b| SameNameCase { repeated_first: a, arity3: b })));
